@@ -47,6 +47,7 @@ func VfC19_IncrementSequential() {
 //vf:switches quick=3 thorough=4
 //vf:unwind 4
 //vf:bound threads 2 threads x 1 operation each, scheduling point at every atomic operation
+//vf:nonative
 //vf:bound values clock and witnessed values below 2^63 (the wrap at the top of the range is decided by the sequential harnesses)
 func VfC19_Concurrent() {
 	var l LamportClock
